@@ -228,6 +228,32 @@ var families = func() []family {
 	}
 }()
 
+// nestFamilies: a construct wrapped around itself n times (left-nested via
+// parentheses, function calls, multi-selects, lets): cost must stay polynomial
+// in the nesting depth. Sizes are depths, much smaller than for the flat
+// families (an exponential blow-up shows at depth 25-50).
+var nestFamilies = func() []family {
+	data := func() run.Node {
+		rec := func(i int) run.Node {
+			return run.Node{T: "object", K: []string{"v", "k"}, A: []run.Node{{T: "array", A: []run.Node{{T: "json.Number", S: strconv.Itoa(i)}}}, {T: "json.Number", S: strconv.Itoa(i % 3)}}}
+		}
+		return run.Node{T: "object", K: []string{"v", "k", "a"}, A: []run.Node{numArray(3, rec), {T: "json.Number", S: "1"}, numArray(3, rec)}}
+	}
+	wrap := func(name, pre, post string) family {
+		return family{"nest:" + name, func(n int) (string, run.Node) {
+			return strings.Repeat(pre, n) + "@" + strings.Repeat(post, n), data()
+		}}
+	}
+	return []family{
+		wrap("paren-slice-field", "(", ")[:].v"), wrap("paren-revslice-field", "(", ")[::-1].v"), wrap("paren-liststar-field", "(", ")[*].v"), wrap("paren-flatten-field", "(", ")[].v"),
+		wrap("paren-filter-field", "(", ")[?v].v"), wrap("paren-field", "(", ").v"), wrap("paren-index", "(", ")[0]"), wrap("paren-star", "(", ").*"), wrap("paren-slice", "(", ")[1:]"),
+		wrap("sort_by", "sort_by(", ", &k)"), wrap("not_null", "not_null(", ")"), wrap("to_array-slice", "to_array(", ")[:].v"), wrap("map", "map(&v, ", ")"), wrap("reverse", "reverse(to_array(", "))"),
+		wrap("list-index", "[", "][0]"), wrap("hash-field", "{v: ", "}.v"), wrap("pipe", "(", " | v)"), wrap("or", "(", " || v)"), wrap("and", "(", " && v)"), wrap("not", "!(", ")"),
+		wrap("let", "let $x = ", " in $x.v"), wrap("let-paren", "(let $x = ", " in $x)[:].v"), wrap("eq", "(", " == @)"), wrap("plus", "(length(", ") + `1`)"), wrap("neg", "-(", ")"),
+		wrap("merge", "merge(", ", `{}`)"), wrap("join", "join(',', to_array(to_string(", ")))"), wrap("filter-nested", "v[?(", ")]"),
+	}
+}()
+
 func bestOf(k int, text string, node run.Node) (time.Duration, string) {
 	best := time.Duration(1 << 62)
 	for i := 0; i < k; i++ {
@@ -281,9 +307,18 @@ func TestC09_Scaling(t *testing.T) {
 	}
 	shard, _ := strconv.Atoi(getenv("VERIF_SHARD", "0"))
 	nshards, _ := strconv.Atoi(getenv("VERIF_NSHARDS", "1"))
-	for i, f := range families {
+	depths := []int{25, 50, 100}
+	if thorough() {
+		depths = []int{50, 100, 200}
+	}
+	all := append(append([]family{}, families...), nestFamilies...)
+	for i, f := range all {
 		if i%nshards != shard {
 			continue
+		}
+		sizes := sizes
+		if strings.HasPrefix(f.name, "nest:") {
+			sizes = depths
 		}
 		c.Cases(len(sizes))
 		call := run.Call{API: "search", Expr: "family:" + f.name}
@@ -323,7 +358,7 @@ func init() {
 			return "malformed replay"
 		}
 		name := strings.TrimPrefix(r.Calls[0].Expr, "family:")
-		for _, f := range families {
+		for _, f := range append(append([]family{}, families...), nestFamilies...) {
 			if f.name == name {
 				return c09Scaling(f, ex.Sizes)
 			}
